@@ -1352,21 +1352,51 @@ class FileBuilder:
         suboperations of the specified cached ``ComplexOperation``
         entry.
         """
-        for suboperation in operation.suboperations:
+        applied_count = 0
+        try:
+            for suboperation in operation.suboperations:
+                if (isinstance(suboperation, BuildFileOperation) and
+                        not suboperation.raised):
+                    filename = suboperation.filename
+                    created_dirs = self._make_dirs(os.path.dirname(filename))
+                    locked_created_dirs = (
+                        self._build_dirs.started_building_file(
+                            filename, created_dirs))
+                    try:
+                        self._ensure_dirs_case(locked_created_dirs)
+                        self._apply_cached_suboperations(suboperation)
+                    except Exception:
+                        self._build_dirs.error_building_file(filename)
+                        raise
+                elif isinstance(suboperation, ComplexOperation):
+                    self._apply_cached_suboperations(suboperation)
+                applied_count += 1
+        except Exception:
+            # Undo the effects on _build_dirs of the suboperations we already
+            # applied, so that a failure leaves no build files reserved
+            self._unapply_cached_suboperations(operation, applied_count)
+            raise
+
+    def _unapply_cached_suboperations(self, operation, count):
+        """Undo ``_apply_cached_suboperations`` for some suboperations.
+
+        Undo the effects on ``_build_dirs`` of having applied the first
+        ``count`` elements of ``operation.suboperations``, as in
+        ``_apply_cached_suboperations``.
+
+        Arguments:
+            operation (ComplexOperation): The operation.
+            count (int): The number of suboperations to undo.
+        """
+        for suboperation in operation.suboperations[:count]:
             if (isinstance(suboperation, BuildFileOperation) and
                     not suboperation.raised):
-                filename = suboperation.filename
-                created_dirs = self._make_dirs(os.path.dirname(filename))
-                locked_created_dirs = self._build_dirs.started_building_file(
-                    filename, created_dirs)
-                try:
-                    self._ensure_dirs_case(locked_created_dirs)
-                    self._apply_cached_suboperations(suboperation)
-                except Exception:
-                    self._build_dirs.error_building_file(filename)
-                    raise
+                self._unapply_cached_suboperations(
+                    suboperation, len(suboperation.suboperations))
+                self._build_dirs.error_building_file(suboperation.filename)
             elif isinstance(suboperation, ComplexOperation):
-                self._apply_cached_suboperations(suboperation)
+                self._unapply_cached_suboperations(
+                    suboperation, len(suboperation.suboperations))
 
     def _dirs_to_make(self, dir_, created_files):
         """Return the parents of ``dir_`` needed to create to make ``dir_``.
